@@ -4,6 +4,7 @@ Oracle: H(Y*|X) - H(Y|X) (Lean `correctedSpecL`, proved equal to the finset form
 MEASURED ranking corollary on the planted-signal family (statistical; not a theorem)."""
 from __future__ import annotations
 
+import logging
 import types
 from fractions import Fraction
 
@@ -13,7 +14,9 @@ from mi_common import est_line, gen_pair, impl_mi, kernel_key, tol
 from vp_common import Atom, Ctx, line, run_driver
 
 PROP = 'C03'
-RULE = ('C01 pair families with correction on; plus the planted-signal family (binary target, 15% flips, independent noise of '
+RULE = ('C01 pair families with correction on; a pipeline family (small integer-coded frames, label at every column position, '
+        'target-only and pairwise scope, real get_combinations_from_columns + get_importances_estimate_pairwise: every pair containing '
+        'the label must carry the corrected score of the FEATURE against the LABEL); plus the planted-signal family (binary target, 15% flips, independent noise of '
         'cardinality 2,4,16,256,n/4,n) at n in {4000,16000} for the measured ranking corollary. Non-trivial = both sides '
         'non-constant, Y != X, Y not all-distinct; distinct = distinct partition structure.')
 ASSUMPTIONS = ['float32 rounding tolerance 4e-6*(1+ln n)',
@@ -66,6 +69,76 @@ def evaluate(ctx: Ctx, cases, oracle_only=False):
             ctx.sample({'family': fam, 'n': n, 'Y': Y[:12], 'X': X[:12], 'impl': a, 'spec': spec})
 
 
+# ---------------------------------------------------------------------------------------------
+# the heuristic as the pipeline applies it: "the score of FEATURE Y against TARGET X" – the label must be the conditioning side
+# whatever the column order and the ranking scope (get_combinations_from_columns -> get_importances_estimate_pairwise)
+
+def gen_pipeline_case(rng):
+    n = rng.choice([4, 6, 12, 40, 150])
+    nf = rng.randint(1, 3)
+    label = [rng.randrange(rng.choice([2, 2, 3])) for _ in range(n)]
+    cols = []
+    for j in range(nf):
+        fam = rng.choice(['noisy', 'indep', 'const', 'distinct', 'copy', 'func'])
+        if fam == 'noisy':
+            c = [y if rng.random() > 0.2 else rng.randrange(3) for y in label]
+        elif fam == 'indep':
+            k = rng.choice([2, 3, 7, max(2, n // 2)])
+            c = [rng.randrange(k) for _ in range(n)]
+        elif fam == 'const':
+            c = [1] * n
+        elif fam == 'distinct':
+            c = rng.sample(range(n), n)
+        elif fam == 'copy':
+            c = label[:]
+        else:
+            c = [(y * 2 + 1) % 3 for y in label]
+        cols.append([f'f{j}', c])
+    cols.insert(rng.randint(0, nf), ['label', label])       # label anywhere in the column order
+    return {'cols': cols, 'label': 'label', 'target_only': rng.random() < 0.5}
+
+
+def evaluate_pipeline(ctx: Ctx, cases, oracle_only=False):
+    import pandas as pd
+    from outrank import core_ranking as cr
+    from outrank.algorithms import importance_estimator as ie
+    req, metas = [], []
+    for c in cases:
+        df = pd.DataFrame({nm: np.asarray(v, dtype=np.int32) for nm, v in c['cols']})
+        args = types.SimpleNamespace(heuristic='MI-numba-randomized', label_column=c['label'], mi_stratified_sampling_ratio=1.0,
+                                     target_ranking_only='True' if c['target_only'] else 'False', reference_model_JSON='',
+                                     combination_number_upper_bound=2 ** 15)
+        d = dict((a, b) for a, b in c['cols'])
+        ctx.evaluations += 1
+        ctx.count('pipeline:' + ('target-only' if c['target_only'] else 'pairwise'))
+        ctx.count('pipeline:label-position=%d/%d' % ([a for a, _ in c['cols']].index(c['label']), len(c['cols']) - 1))
+        logging.disable(logging.CRITICAL)        # numba_mi logs a warning for every 1-d feature vector
+        try:
+            combos = cr.get_combinations_from_columns(df.columns, args)
+            trip = [ie.get_importances_estimate_pairwise(cb, [], args, df) for cb in combos]
+        except Exception as e:     # noqa: BLE001
+            ctx.oracle_fail('pipeline-raises', f'pipeline on {c}: {type(e).__name__}: {e}', c)
+            continue
+        finally:
+            logging.disable(logging.NOTSET)
+        for a, b, s in trip:
+            if c['label'] not in (a, b):
+                continue
+            f = b if a == c['label'] else a          # the feature of the pair; the label is the target
+            Y, X = d[f], d[c['label']]
+            req.append(line(Atom('MI'), Atom('entropy'), X) if Y == X else line(Atom('MI'), Atom('corrected'), Y, X))
+            metas.append((c, a, b, float(s), Y, X))
+    rep = run_driver(req) if req else []
+    for (c, a, b, s, Y, X), spec in zip(metas, rep):
+        t = tol(len(X))
+        if len(set(Y)) > 1 and len(set(X)) > 1 and Y != X:
+            ctx.nontrivial.add(hash(('pipe', kernel_key(Y, X), a == c['label'])))
+        if not abs(s - spec) <= t:
+            ctx.oracle_fail('pipeline-orientation', f'columns {[x for x, _ in c["cols"]]} label={c["label"]!r} target_only={c["target_only"]}: pair ({a!r}, {b!r}) '
+                            f'scored {s!r}, but the corrected score of the feature against the label is {spec!r} '
+                            f'(feature={Y[:12]} label={X[:12]})', c)
+
+
 def planted(ctx: Ctx, seeds, n):
     """measured corollary: min margin score(signal) - max score(noise), corrected vs uncorrected"""
     worst_c, worst_u = float('inf'), float('inf')
@@ -92,9 +165,14 @@ def corpus():
             ('corpus', [0, 1, 2, 3, 4, 5], [0, 0, 1, 1, 2, 2]), ('corpus', [2, 0, 2], [2, 0, 2])]
 
 
+PIPE_CORPUS = [{'cols': [['label', [0, 0, 0, 1]], ['f', [0, 0, 1, 0]]], 'label': 'label', 'target_only': False},
+               {'cols': [['f', [0, 0, 1, 0]], ['label', [0, 0, 0, 1]]], 'label': 'label', 'target_only': True}]
+
+
 def run(ctx: Ctx):
     n = 5000 if ctx.thorough() else 700
     evaluate(ctx, corpus() + [gen_pair(ctx.rng, ctx.thorough(), maxn=3000) for _ in range(n)])
+    evaluate_pipeline(ctx, PIPE_CORPUS + [gen_pipeline_case(ctx.rng) for _ in range(1500 if ctx.thorough() else 150)])
     seeds = range(ctx.seed * 100000, ctx.seed * 100000 + (400 if ctx.thorough() else 12))
     for nn in ((4000, 16000) if ctx.thorough() else (4000,)):
         wc, wu = planted(ctx, seeds, nn)
@@ -105,4 +183,15 @@ def search(ctx: Ctx):
     sub = Ctx(ctx.prop, ctx.tier)
     sub.rng.seed(f'search:{ctx.seed}')
     evaluate(sub, [gen_pair(sub.rng, False, maxn=400) for _ in range(3000)], oracle_only=True)
+    evaluate_pipeline(sub, [gen_pipeline_case(sub.rng) for _ in range(800)], oracle_only=True)
     return sub.oracle_failures
+
+
+def replay(ctx: Ctx, payload):
+    c = payload['case']
+    if isinstance(c, dict) and 'cols' in c:
+        evaluate_pipeline(ctx, [c])
+    elif isinstance(c, dict) and 'Y' in c:
+        evaluate(ctx, [(c.get('family', 'replay'), c['Y'], c['X'])])
+    else:
+        evaluate(ctx, [tuple(c)])
